@@ -140,7 +140,8 @@ impl Property for C06 {
         let collide = t.p(100);
         // which irrelevant variables each state assigns (different subsets per state)
         let masks: Vec<u16> = (0..8).map(|_| t.u16()).collect();
-        let cfg = InstCfg::new(regime);
+        let mut cfg = InstCfg::new(regime);
+        cfg.tolerance_candidates = true;
         let mut gi = gen_instance(t, &cfg, ctx);
         // sample ids
         let mut ids: Vec<u64> = vec![];
@@ -257,6 +258,24 @@ impl Property for C06 {
                 f.message = ctxmsg(format!("sample {id}: {}", f.message));
                 f
             })?;
+        }
+        // per-constraint feasibility tables: entry of sample i says whether that constraint holds at sample i
+        // (|f| < 1e-6 for equalities, f < 1e-6 for inequalities, applied to the value of the single evaluation)
+        for c in &ss.constraints {
+            for (id, single) in &singles {
+                let Some(ec) = single.evaluated_constraints.iter().find(|e| e.id == c.id) else { continue };
+                let holds = match ec.equality {
+                    1 => ec.evaluated_value.abs() < 1e-6,
+                    2 => ec.evaluated_value < 1e-6,
+                    _ => continue,
+                };
+                if c.feasible.get(id) != Some(&holds) {
+                    return fail(
+                        "C06/constraint-feasible-table",
+                        ctxmsg(format!("constraint {} (equality {}): per-sample feasibility table says {:?} for sample {id}, but the value there is {:e}", c.id, ec.equality, c.feasible.get(id), ec.evaluated_value)),
+                    );
+                }
+            }
         }
         // re-grouping invariance: every pair in its own entry, reversed order
         let mut regroup = v1::Samples::default();
